@@ -9,5 +9,7 @@ if [ -f replay/Cargo.toml ]; then
   cp /repo/Cargo.lock replay/Cargo.lock 2>/dev/null || true
   (cd replay && CARGO_TARGET_DIR=/verif/.cache/stable cargo build --offline --release -q)
 fi
+# the real tuftool binary for the C20 command-sequence sweep (first build compiles the AWS SDK crates: about 5 minutes)
+(cd /repo && CARGO_TARGET_DIR=/verif/.cache/tuftool cargo build -p tuftool --offline -q 2>/dev/null) || echo "warning: tuftool did not build (C20 native sweep will report it)"
 python3-vt -c "import z3; print('z3', z3.get_version_string())"
 echo setup ok
